@@ -2695,6 +2695,29 @@ class Machine:
             if k2 is not None and k2 != k:
                 detail += '\n(the batch really fails at element %d)' % k2
                 groups = group(k2)
+        if op == 'compile' and groups['other']:
+            # A class element aimed at namespace X (namespace argument or
+            # namespace pragma) whose class already exists is handed to
+            # ModifyClass by the MOF compiler.  Root cause of its own: the
+            # modification is applied to the class of that name in the
+            # connection's DEFAULT namespace (the compiler passes the
+            # namespace positionally, _MockMOFWBEMConnection.ModifyClass
+            # only reads the keyword).  Kept apart from changes nobody can
+            # account for.
+            dflt = (before.get(('default_namespace',)) or '') \
+                .strip('/').lower()
+            aimed = set(m[2] for ms in tch for m in ms
+                        if len(m) == 3 and m[0] != 'inst' and
+                        m[1] == 'class' and m[0] != dflt)
+            misdirected = [
+                (key, what) for key, what in groups['other']
+                if what == 'changed' and len(key) == 3 and
+                key[1] == 'class' and key[0] == dflt and key[2] in aimed]
+            if misdirected:
+                groups['other'] = [x for x in groups['other']
+                                   if x not in misdirected]
+                ctx.fail('%s:class-redefinition-applied-in-default-'
+                         'namespace' % api, detail)
         if groups['other']:
             ctx.fail('%s:unattributed-change:%s' %
                      (api, summary(groups['other'])), detail)
